@@ -611,12 +611,70 @@ def _op_chars(conds):
     return chars
 
 
+def g10_table(ctx, b):
+    """token_cleaner tabulated (E6c) over token lists of up to four tokens of the kinds the cleaner can tell apart: a word, a
+    number, '=', '(' and '+'. Expected: every word behind the first '=' is dropped (every word when there is no '='), nothing
+    else changes. Returns None when the walk cannot be done (the site rule decides then)."""
+    import itertools
+    from ..absint import Machine, Unknown
+    from .. import absstr
+    tadt = ctx.facts.adts['types::TokenType']
+    dv = {v['name']: v['discr'] for v in tadt['variants']}
+
+    def tok(kind):
+        if kind == 'T':
+            return {'__adt__': 'types::TokenType', '__variant__': 'Text', '__discr__': dv['Text'], '0': ('str', ['w'])}
+        if kind == 'N':
+            return {'__adt__': 'types::TokenType', '__variant__': 'Number', '__discr__': dv['Number'], '0': 1.0, '1': ('sym', 'number-type')}
+        return {'__adt__': 'types::TokenType', '__variant__': 'Operator', '__discr__': dv['Operator'], '0': {'E': '=', 'P': '(', 'A': '+'}[kind]}
+
+    def model(m, path, args, t):
+        return absstr.std_model(m, path, args, t)
+    n = 0
+    bad = None
+    for k in range(0, 5):
+        for seq in itertools.product('TNEPA', repeat=k):
+            toks = [tok(x) for x in seq]
+            infos = [{'__adt__': 'tokinizer::TokenInfo', '__variant__': 'TokenInfo', 'token_type': {'__adt__': 'core::option::Option', '__variant__': 'Some', '__discr__': 1, '0': tk},
+                      'start': i, 'end': i + 1} for i, tk in enumerate(toks)]
+            m = Machine(b, model, max_steps=20000)
+            m.env['self'] = {'__adt__': 'tokinizer::Tokinizer', '__variant__': 'Tokinizer', 'tokens': ('vec', list(toks)), 'token_infos': ('vec', infos)}
+            m.env[1] = ('ptr', 'self', ())
+            try:
+                if m.run(0) != 'return':
+                    return None
+            except Unknown as ex:
+                ctx.note('G10: token_cleaner could not be tabulated (%s); judged by its sites instead' % str(ex)[:140])
+                return None
+            out = m.env['self']['tokens']
+            if not absstr.is_vec(out):
+                return None
+            got = ''.join({'Text': 'T', 'Number': 'N'}[x.get('__variant__')] if x.get('__variant__') in ('Text', 'Number') else {'=': 'E', '(': 'P', '+': 'A'}.get(x.get('0') if isinstance(x.get('0'), str) else None, '?') for x in out[1])
+            start = seq.index('E') + 1 if 'E' in seq else 0
+            want = ''.join(x for i, x in enumerate(seq) if not (x == 'T' and i >= start))
+            n += 1
+            if got != want and bad is None:
+                names = {'T': 'word', 'N': 'number', 'E': "'='", 'P': "'('", 'A': "'+'"}
+                bad = 'the token list [%s] is cleaned to [%s]; expected [%s] (words are dropped from the start of the calculation: behind the first \'=\', else from the beginning)' % (
+                    ' '.join(names[x] for x in seq), ' '.join(names.get(x, x) for x in got), ' '.join(names[x] for x in want))
+    return n, bad
+
+
 def g10_cleaner_start(ctx):
     """G10 token_cleaner drops every Text token of the calculated part (a magnitude suffix leaves one): its scan starts at 0,
     or behind the first '=' - and behind nothing else, so a suffix in front of a parenthesis is dropped like any other"""
     ctx.rule('G10', 'token_cleaner: Text tokens are dropped from the start of the calculation', floor=2)
     b = ctx.facts.one(r"^tokinizer::Tokinizer::<'a>::token_cleaner$")
     ctx.fn(b)
+    tab = g10_table(ctx, b)
+    if tab is not None:
+        n, bad = tab
+        if bad:
+            ctx.finding('G10', 'token_cleaner/table', bad, site=b.loc)
+        else:
+            ctx.ok('G10', 'token_cleaner over %d token lists of up to four tokens: words are dropped behind the first "=" (or everywhere), nothing else' % n, 'table', site=b.loc)
+            ctx.ok('G10', 'a word in front of a parenthesis is dropped like any other', 'table', site=b.loc)
+        return
     rm = [(bid, t) for bid, t in b.calls(r'Vec::<.*>::remove$') if render(b.expr(t['args'][0])).endswith('.tokens')]
     if len(rm) != 1:
         raise AnchorLost('token_cleaner: expected one removal from tokens, found %d' % len(rm))
